@@ -66,6 +66,27 @@ def js_round(x: float, ndigits: int = 0) -> float:
             return math.ceil(x * multiplier - 0.5) / multiplier
 
 
+def to_integer_or_infinity(value: JSValue) -> Union[int, float]:
+    """ECMAScript ToIntegerOrInfinity: NaN -> 0, +-Infinity kept, otherwise truncate."""
+    n = to_number(value)
+    if isinstance(n, float):
+        if math.isnan(n):
+            return 0
+        if math.isinf(n):
+            return n
+        return int(n)
+    return n
+
+
+def clamp_index(value: Union[int, float], length: int) -> int:
+    """Clamp an integer-or-infinity position into [0, length]."""
+    if value < 0:
+        return 0
+    if value > length:
+        return length
+    return int(value)
+
+
 @dataclass
 class ClosureCell:
     """A cell for closure variable - allows sharing between scopes."""
@@ -1823,55 +1844,63 @@ class VM:
         """Create a bound string method."""
 
         def charAt(*args):
-            idx = int(to_number(args[0])) if args else 0
+            idx = to_integer_or_infinity(args[0]) if args else 0
             if 0 <= idx < len(s):
                 return s[idx]
             return ""
 
         def charCodeAt(*args):
-            idx = int(to_number(args[0])) if args else 0
+            idx = to_integer_or_infinity(args[0]) if args else 0
             if 0 <= idx < len(s):
                 return ord(s[idx])
             return float("nan")
 
         def indexOf(*args):
-            search = to_string(args[0]) if args else ""
-            start = int(to_number(args[1])) if len(args) > 1 else 0
-            if start < 0:
-                start = 0
+            search = to_string(args[0]) if args else "undefined"
+            start = clamp_index(
+                to_integer_or_infinity(args[1]) if len(args) > 1 else 0, len(s)
+            )
             return s.find(search, start)
 
         def lastIndexOf(*args):
-            search = to_string(args[0]) if args else ""
-            end = int(to_number(args[1])) if len(args) > 1 else len(s)
+            search = to_string(args[0]) if args else "undefined"
+            # A position that converts to NaN (including a missing one) means "from the end"
+            num_pos = to_number(args[1]) if len(args) > 1 else float("nan")
+            if isinstance(num_pos, float) and math.isnan(num_pos):
+                end = len(s)
+            else:
+                end = clamp_index(to_integer_or_infinity(num_pos), len(s))
             # Python's rfind with end position
             return s.rfind(search, 0, end + len(search))
 
         def substring(*args):
-            start = int(to_number(args[0])) if args else 0
-            end = int(to_number(args[1])) if len(args) > 1 else len(s)
-            # Clamp and swap if needed
-            if start < 0:
-                start = 0
-            if end < 0:
-                end = 0
+            start = clamp_index(to_integer_or_infinity(args[0]) if args else 0, len(s))
+            end = len(s)
+            if len(args) > 1 and args[1] is not UNDEFINED:
+                end = clamp_index(to_integer_or_infinity(args[1]), len(s))
+            # Swap if needed
             if start > end:
                 start, end = end, start
             return s[start:end]
 
         def slice_fn(*args):
-            start = int(to_number(args[0])) if args else 0
-            end = int(to_number(args[1])) if len(args) > 1 else len(s)
+            start = to_integer_or_infinity(args[0]) if args else 0
+            end = len(s)
+            if len(args) > 1 and args[1] is not UNDEFINED:
+                end = to_integer_or_infinity(args[1])
             # Handle negative indices
             if start < 0:
                 start = max(0, len(s) + start)
             if end < 0:
                 end = max(0, len(s) + end)
-            return s[start:end]
+            return s[clamp_index(start, len(s)) : clamp_index(end, len(s))]
 
         def split(*args):
             sep = args[0] if args else UNDEFINED
-            limit = int(to_number(args[1])) if len(args) > 1 else -1
+            # limit is ToUint32(limit) unless undefined
+            limit = -1
+            if len(args) > 1 and args[1] is not UNDEFINED:
+                limit = self._to_uint32(args[1])
 
             if sep is UNDEFINED:
                 parts = [s]
@@ -1944,24 +1973,30 @@ class VM:
             return result
 
         def repeat(*args):
-            count = int(to_number(args[0])) if args else 0
-            if count < 0:
+            count = to_integer_or_infinity(args[0]) if args else 0
+            if count < 0 or count == float("inf"):
                 raise JSRangeError("Invalid count value")
             return s * count
 
         def startsWith(*args):
-            search = to_string(args[0]) if args else ""
-            pos = int(to_number(args[1])) if len(args) > 1 else 0
+            search = to_string(args[0]) if args else "undefined"
+            pos = clamp_index(
+                to_integer_or_infinity(args[1]) if len(args) > 1 else 0, len(s)
+            )
             return s[pos:].startswith(search)
 
         def endsWith(*args):
-            search = to_string(args[0]) if args else ""
-            length = int(to_number(args[1])) if len(args) > 1 else len(s)
+            search = to_string(args[0]) if args else "undefined"
+            length = len(s)
+            if len(args) > 1 and args[1] is not UNDEFINED:
+                length = clamp_index(to_integer_or_infinity(args[1]), len(s))
             return s[:length].endswith(search)
 
         def includes(*args):
-            search = to_string(args[0]) if args else ""
-            pos = int(to_number(args[1])) if len(args) > 1 else 0
+            search = to_string(args[0]) if args else "undefined"
+            pos = clamp_index(
+                to_integer_or_infinity(args[1]) if len(args) > 1 else 0, len(s)
+            )
             return search in s[pos:]
 
         def replace(*args):
